@@ -311,6 +311,30 @@ func C19() *engine.Check {
 				}
 				try("extension", append(append([]byte{}, stored...), 0))
 				try("extension", append([]byte{0}, stored...))
+				// the same bytes in another order: every rotation (k = 24 moves the nonce behind the box, k = len-16 the tag in
+				// front), the nonce / tag / body parts in every other order, the whole reversed
+				for k := 1; k < len(stored); k++ {
+					kind := "rotation"
+					if k == 24 {
+						kind = "rotation/nonce-moved-behind-the-box"
+					}
+					if rot := append(append([]byte{}, stored[k:]...), stored[:k]...); !bytes.Equal(rot, stored) {
+						try(kind, rot)
+					}
+				}
+				if len(stored) >= 40 {
+					parts := [3][]byte{stored[:24], stored[24:40], stored[40:]}
+					for _, perm := range [][3]int{{0, 2, 1}, {1, 0, 2}, {1, 2, 0}, {2, 0, 1}, {2, 1, 0}} {
+						var mod []byte
+						for _, i := range perm {
+							mod = append(mod, parts[i]...)
+						}
+						if !bytes.Equal(mod, stored) {
+							try("parts-reordered", mod)
+						}
+					}
+					try("reversed", reverse(stored))
+				}
 			}
 		})
 	}
@@ -338,8 +362,9 @@ func C19() *engine.Check {
 		Subs: []*engine.Sub{
 			mk("roundtrip-and-confidentiality", "roundtrip", "every plaintext (11 lengths x 4 patterns incl. one containing the key) x {string, []byte} entry point with crypto/rand replaced by a counter stream: same key returns the plaintext through both accessors; stored value has len+40 bytes; plaintext (len>=16) not contained in the stored value; two encryptions differ and use different nonces; non-trivial = all", all),
 			mk("wrong-and-invalid-keys", "wrongkeys", "every plaintext x every other key (single-bit flips of the key: 8 in quick, all 256 in thorough; all-ones; reversed) must fail to decrypt; nil, empty, 16/31/33/64-byte and all-zero keys are refused by both AddEncrypted and GetEncrypted*; non-trivial = all", all),
-			mk("ciphertext-modifications", "ciphertext-mods", "every single-bit flip of the stored value (nonce, tag and body regions), every truncation length and a 1-byte extension at either end must make decryption fail; non-trivial = all", modLens),
+			mk("ciphertext-modifications", "ciphertext-mods", "every single-bit flip of the stored value (nonce, tag and body regions), every truncation length, a 1-byte extension at either end, every rotation of the stored bytes (the nonce moved behind the box, the tag moved in front, ...), the nonce / tag / body parts in every other order and the reversed value must make decryption fail; non-trivial = all", modLens),
 			c19TokenSub(),
+			c19BigSub(),
 			c19SeqSub(),
 			c19ReadSeqSub(),
 			c19PrefixSub(),
